@@ -22,7 +22,8 @@ from pbt.runner import Check, Disc, Outcome
 
 SINGLE_NOTATIONS = ['call', '__call__', 'proxy', 'send']
 # 'batch-reuse': ONE batch object - the first `split` calls are added and sent, then the rest is added to the same object and it is sent again
-BATCH_NOTATIONS = ['batch-add', 'batch-call', 'batch-getitem', 'batch-proxy', 'batch-send', 'batch-reuse']
+# 'batch-mixed': ONE batch object filled through two notations - the head by batch(...)(...) / notify, the tail by the subscript, which also sends it
+BATCH_NOTATIONS = ['batch-add', 'batch-call', 'batch-getitem', 'batch-proxy', 'batch-send', 'batch-reuse', 'batch-mixed']
 METHODS = {
     # name -> list of (args, kwargs) shapes that bind, plus some that do not
     'echo': [([1], {}), ([1, 'x'], {}), ([], {'a': 1}), ([], {'a': None, 'b': [1]}), ([], {}), ([1, 2, 3], {}), ([], {'zz': 1})],
@@ -68,7 +69,7 @@ class C07(Check):
         "cases: call plans of 1..4 logical calls (method of the 15-method registry or an unknown one, positional list or named mapping "
         "incl. non-binding shapes, call or notification, pooled JSON values as arguments) executed through a notation {call, __call__, "
         "proxy attribute, hand-built Request + send, notify; batch add/notify, batch(...)(...), batch[...], batch.proxy, hand-built "
-        "BatchRequest + batch.send; one batch object sent, grown and sent again} (each only where it can express the plan) and, for the interchangeability clause, through a second "
+        "BatchRequest + batch.send; one batch object sent, grown and sent again; one batch object filled through two notations} (each only where it can express the plan) and, for the interchangeability clause, through a second "
         "notation with identically seeded id generators; x sync/async client x sync/async dispatcher x id generator {sequential(start, "
         "step), randint, random(length, chars), uuid} x strict on/off x dispatcher max_batch_size {unset, 1, 2, 3} x scripted method behaviours (return any JSON value, raise registered "
         "typed / unregistered protocol errors, raise exceptions). Oracle: one transport call per send; the wire text is a valid request "
@@ -128,6 +129,8 @@ class C07(Check):
             {**base, 'notation': 'batch-getitem', 'other': 'batch-proxy', 'plan': [c('echo', [1, 2]), c('noargs', []), c('ret', [None])]},
             {**base, 'notation': 'proxy', 'other': 'send', 'plan': [c('rpc_err2', []), c('nope', [])]},
             {**base, 'notation': 'proxy', 'other': 'call', 'plan': [c('_us', [1]), n('_us', [])]},
+            {**base, 'notation': 'batch-mixed', 'other': 'batch-add', 'plan': [c('echo', [1, 2]), n('noargs', []), c('echo', [3, 4])]},
+            {**base, 'client': 'async', 'dispatcher': 'async', 'strict': False, 'notation': 'batch-mixed', 'other': 'batch-send', 'plan': [n('echo', [1]), c('ret', [])]},
             {**base, 'notation': 'call', 'other': 'batch-add', 'plan': [c('wrapped', [1]), c('rpc.ext', [2]), {'method': 'rpc.ext', 'args': [], 'kwargs': {'a': 3}, 'kind': 'notification'}, c('wrapped', [], {'a': 4})]},
             {**base, 'client': 'async', 'dispatcher': 'async', 'notation': 'batch-getitem', 'other': 'proxy', 'plan': [c('wrapped', [1]), c('rpc.ext', [2])]},
             {**base, 'notation': 'call', 'other': 'batch-add', 'plan': [c('rpc_err', [])],
@@ -165,6 +168,8 @@ class C07(Check):
             return all(p['kind'] == 'call' for p in plan)
         if notation == 'batch-reuse':
             return len(plan) >= 2
+        if notation == 'batch-mixed':
+            return len(plan) >= 2 and plan[-1]['kind'] == 'call' and not plan[-1]['kwargs']
         return True
 
     @staticmethod
@@ -234,6 +239,14 @@ class C07(Check):
                 for p in plan[k:]:
                     (b.add if p['kind'] == 'call' else b.notify)(p['method'], *p['args'], **p['kwargs'])
                 attempt(lambda: b.call())
+            elif notation == 'batch-mixed':
+                for p in plan[:-1]:
+                    if p['kind'] == 'call':
+                        b = b(p['method'], *p['args'], **p['kwargs'])
+                    else:
+                        b = b.notify(p['method'], *p['args'], **p['kwargs'])
+                last = plan[-1]
+                attempt(lambda: b[(last['method'], *last['args']),])
             elif notation == 'batch-call':
                 for p in plan:
                     if p['kind'] == 'call':
